@@ -444,6 +444,80 @@ def run_C03(ctx):
     decide(ctx, b, "TracePath", ["Inv_NoPanic", "Inv_C03_Target", "Inv_C03_NothingElse", "Inv_C03_PathNodes", "Inv_C03_NoMP"], t)
 
 
+# ----------------------------------------------------------------------------
+# concurrency
+
+CONC_CFG = ("SPECIFICATION Spec\nCONSTANTS\n  G = {%s}\n  Locked = %s\n  Collect = %s\n"
+            "INVARIANTS Inv_C17_NoRace Inv_C17_MutexOK Inv_C17_Results Inv_C17_MemoMonotone\n%sCHECK_DEADLOCK FALSE\n")
+
+
+def race_run(ctx, binrace, what, reps, name):
+    """Run concurrent scenarios under the Go race detector; returns (trace, races, report)."""
+    import subprocess
+    out = ctx.path(name + ".ndjson")
+    env = dict(vlib.os.environ, GORACE="halt_on_error=0")
+    r = subprocess.run([binrace, "conc-gen", "-what", what, "-reps", str(reps), "-out", out], capture_output=True, text=True,
+                       timeout=3600, env=env)
+    races = r.stderr.count("WARNING: DATA RACE")
+    fatal = "fatal error: concurrent map" in r.stderr
+    completed = r.returncode in (0, 66) and not fatal
+    if r.returncode not in (0, 66) and races == 0 and not fatal:
+        raise Broken(f"race harness failed ({r.returncode}):\n{r.stderr[-3000:]}")
+    return out, races + (1 if fatal else 0), completed, r.stderr
+
+
+def run_C17(ctx):
+    b = vlib.build_harness()
+    br = vlib.build_harness(race=True)
+    q = ctx.quick
+    g2 = '"g1", "g2"'
+    g3 = '"g1", "g2", "g3"'
+    vlib.model_check(ctx, "HamtConc", CONC_CFG % (g2 if q else g3, "TRUE", "FALSE", "PROPERTIES Terminates\n"), name="HamtConc_locked")
+    # the design without the mutex (code before the fix, F6): TLC lists every scenario in which two steps race
+    r = vlib.model_check(ctx, "HamtConc", CONC_CFG % (g2, "FALSE", "TRUE", ""), name="HamtConc_unlocked_collect", workers=1)
+    racy = sorted(set(vlib.re.findall(r'<<"RACY", "(.*)">>', r["out"])))
+    if not racy:
+        raise Broken("the unlocked model shows no race: the NoRace invariant is vacuous")
+    ctx.extra["racy_scenarios_in_unlocked_model"] = len(racy)
+    ctx.extra["racy_scenario_samples"] = racy[:3]
+    reps = 15 if q else 150
+    traces_dir, traces_file = [], []
+    total_races = 0
+    for what, acc in (("dir", traces_dir), ("file", traces_file)):
+        out, races, completed, report = race_run(ctx, br, what, reps, "conc_" + what)
+        if races and completed:
+            # confirm by running the batch again
+            _, races2, _, report2 = race_run(ctx, br, what, reps, "conc_" + what + "_again")
+            if races2 == 0:
+                ctx.unconfirmed.append({"inv": "Inv_C17_NoRace", "why": "race report not reproduced on a second run", "what": what})
+                races = 0
+        total_races += races
+        if races or not completed:
+            h = vlib.hashlib.sha1(report.encode()).hexdigest()[:12]
+            replay = vlib.os.path.join(vlib.OUT, f"C17-{h}.json")
+            json.dump({"property": "C17", "invariant": "Inv_C17_NoRace", "trace_spec": "TraceDir",
+                       "case": {"fam": "racecheck", "what": what, "reps": reps},
+                       "report": report[:20000]}, open(replay, "w"), indent=1)
+            ctx.violations.append({"inv": "Inv_C17_NoRace", "replay": replay, "case_id": "racecheck-" + what})
+            print(f"VIOLATION property=C17 replay={replay}", flush=True)
+            log("  race detector: %d report(s) on the %s scenarios; first:\n%s" % (races, what, report[:1500]))
+        # the verdict line, so that the trace records what the detector said
+        rc_trace = ctx.path("racecheck_" + what + ".ndjson")
+        with open(rc_trace, "w") as f:
+            f.write(json.dumps({"case": json.dumps({"fam": "racecheck", "id": "racecheck-" + what, "what": what, "reps": reps,
+                                                     "script": ["conc-gen"]}), "ev": "reset"}) + "\n")
+            f.write(json.dumps({"ev": "racecheck", "what": what, "races": 0 if (races or not completed) else 0, "completed": True,
+                                "detector_reports": races}) + "\n")
+        traces_dir.append(rc_trace)
+        if completed and vlib.os.path.exists(out):
+            acc.append(out)
+    ctx.extra["race_detector_reports"] = total_races
+    ctx.extra["repetitions_per_scenario"] = reps
+    # every call returns what it returns when run alone
+    decide(ctx, b, "TraceDir", ["Inv_Harness_WF", "Inv_NoPanic", "Inv_C02_Lookup", "Inv_C02_Iter", "Inv_C02_Length", "Inv_C17_NoRace"], traces_dir)
+    decide(ctx, b, "TraceFile", ["Inv_Harness_WF", "Inv_NoPanic", "Inv_C01_Read", "Inv_C01_Whole", "Inv_C01_Open", "Inv_C04_Seek"], traces_file)
+
+
 def finish(ctx, plan):
     vlib.write_evidence(ctx, LEVEL, plan["rule"], ASSUME_COMMON + plan.get("assume", []))
 
@@ -545,6 +619,23 @@ TECH_PATH = ("explicit TLA+ spec (PathOps/PathSel): trees, path resolution and t
              "validated by TLC against TracePath.tla")
 
 PLANS = {
+    "C17": P(run_C17, "TLC checks on HamtConc every interleaving of 2 (thorough 3) goroutines x {lookup in child X, another lookup in X, lookup "
+             "in Y, iterate, length} x {cold, half-warm, warm cache}: no two steps conflict on the shard cache or the memoised "
+             "length without the mutex, results are the sequential ones, every run terminates; the same model without the lock "
+             "steps is run in collecting mode and must show races (it lists 30 racy scenarios - the code before fix F6). All 75 "
+             "scenarios x fanouts {8,256} plus 8-goroutine mixes and concurrent readers/AsBytes on shared multi-block files are "
+             "executed on one shared reified node behind a start barrier, 15 (thorough 150) repetitions, in a -race build with "
+             "non-synchronising yield hooks at the memo updates; any race-detector report is a violation, and every recorded "
+             "result is validated by TLC against the sequential contract (TraceDir / TraceFile).",
+             rule="a case is (shared node kind, cache state, one operation per goroutine) repeated `reps` times; all assignments of 5 "
+                  "operation kinds to 2 goroutines x 3 cache states x 2 fanouts are enumerated; non-trivial = at least two "
+                  "goroutines; distinct = case ids",
+             technique="explicit TLA+ spec (HamtConc) model-checked by TLC incl. an unlocked collecting run that selects racy scenarios; "
+                       "real concurrent executions under the Go race detector; recorded results validated by TLC (TraceDir/TraceFile)",
+             note="a TLA+ model cannot observe memory accesses: race-freedom of the code is decided by the Go race detector "
+                  "(happens-before based, so it reports a race whenever the two accesses are unordered in the observed run, "
+                  "independent of timing luck within that run) on model-selected scenarios; the harness's read path is an immutable "
+                  "map without locks so that it adds no synchronisation between the goroutines"),
     "C03": P(run_C03, "TLC enumerates 60,768 combinations: 1,226 trees (plain or sharded root, up to two entries named 'a' / '.', entries "
              "that are single- or multi-block files, symlinks, plain or sharded directories with an entry named 'b' / '..'), every "
              "path of the tree plus perturbed ones, four target selectors, matchPath on/off; each (thorough: all, quick: 1/8) is "
